@@ -496,6 +496,62 @@ func shutdownBeforeClose(fd *ast.FuncDecl) bool {
 	return ok
 }
 
+
+// handlerSerialized: every function literal of fd that calls `<handler>.ProcessBlock` takes `lockSuffix`.Lock() as a
+// *direct, unconditional* statement of its body before that call and releases it (direct statement or defer) after:
+// the handler calls of all inner sources, incarnations included, are serialised by one mutex.
+func handlerSerialized(fd *ast.FuncDecl, callSuffix, lockName string) bool {
+	if fd == nil || fd.Body == nil {
+		return false
+	}
+	seen, ok := 0, true
+	ast.Inspect(fd.Body, func(x ast.Node) bool {
+		fl, isLit := x.(*ast.FuncLit)
+		if !isLit || !containsCall(fl.Body, callSuffix) {
+			return true
+		}
+		// innermost literal containing the call
+		inner := false
+		for _, st := range fl.Body.List {
+			ast.Inspect(st, func(y ast.Node) bool {
+				if g, is := y.(*ast.FuncLit); is && containsCall(g.Body, callSuffix) {
+					inner = true
+				}
+				return !inner
+			})
+		}
+		if inner {
+			return true
+		}
+		seen++
+		locked, called, released := false, false, false
+		for _, st := range fl.Body.List {
+			switch {
+			case !called && isCallTo(st, lockName+".Lock"):
+				locked = true
+			case containsCall(st, callSuffix):
+				if !locked || released {
+					ok = false
+				}
+				called = true
+			case isCallTo(st, lockName+".Unlock"):
+				if !called {
+					locked = false
+				}
+				released = true
+			}
+			if d, is := st.(*ast.DeferStmt); is && strings.HasSuffix(exprName(d.Call.Fun), lockName+".Unlock") && locked {
+				released = false
+			}
+		}
+		if !locked || !called {
+			ok = false
+		}
+		return true
+	})
+	return ok && seen > 0
+}
+
 func usesOnce(fd *ast.FuncDecl) bool { return fd != nil && containsCall(fd.Body, "Once.Do") }
 
 func main() {
@@ -529,6 +585,7 @@ func main() {
 		"readErrShutdownBeforeClose": fmt.Sprint(shutdownBeforeClose(fsrc.method("FileSource", "streamReader"))),
 		"resultChanQueuedInReadOrder": fmt.Sprint(resultChanQueuedInReadOrder(fsrc.method("FileSource", "streamReader"))),
 		"forwarderSequential":         fmt.Sprint(forwarderSequential(fsrc.method("FileSource", "streamReader"))),
+		"muxHandlerSerialized":        fmt.Sprint(handlerSerialized(mux.method("MultiplexedSource", "connectSources"), "s.handler.ProcessBlock", "s.handlerLock")),
 	}
 	js, _ := json.MarshalIndent(facts, "", " ")
 	os.WriteFile(os.Args[3], js, 0644)
@@ -555,7 +612,8 @@ func main() {
 	b.WriteString("namespace BstreamVerif.Facts\nopen BstreamVerif.Conc.Shutter BstreamVerif.Conc.Locks\n\n")
 	fmt.Fprintf(&b, "def joiningPattern : Pattern := %s\n", pat(facts["joiningPattern"]))
 	fmt.Fprintf(&b, "def eternalPattern : Pattern := %s\n", pat(facts["eternalPattern"]))
-	fmt.Fprintf(&b, "def muxPattern : Pattern := %s\n\n", pat(facts["muxPattern"]))
+	fmt.Fprintf(&b, "def muxPattern : Pattern := %s\n", pat(facts["muxPattern"]))
+	fmt.Fprintf(&b, "/-- every handler wrapper of MultiplexedSource.connectSources holds handlerLock, unconditionally, around the handler call -/\ndef muxHandlerSerialized : Bool := %s\n\n", facts["muxHandlerSerialized"])
 	fmt.Fprintf(&b, "def hub : HubFacts := { burstLocks := [%s, %s, %s], processLock := %s, subscribeGuarded := %s, unsubscribeGuarded := %s }\n",
 		lk(facts["burstFromNumLock"]), lk(facts["burstFromCursorLock"]), lk(facts["burstThroughLock"]), lk(facts["processBlockLock"]),
 		facts["subscribeGuarded"], facts["unsubscribeGuarded"])
